@@ -45,6 +45,7 @@ func (nullSink) Count(string)                   {}
 func (nullSink) CaseNo() int                    { return 0 }
 
 type state struct {
+	c    *cstate // client-level cases (client.go)
 	vb   *ipam.VerifBlock
 	n    int
 	vnow int64
@@ -741,6 +742,7 @@ func main() {
 	h.Rule = "case = one block (1..64 addresses, optional reserved ends, small or huge initial sequence number) + 6..45 steps over " +
 		"{auto (with reserved ordinals), assign, rel (1-3 options: valid/stale/absent sequence number x right/wrong/absent handle, duplicates, out-of-block), " +
 		"relh (with/without sequence number), tick, gc, bump}; cooldown per case from {-1,0,1,2,5,30} (80% constant); 60% of cases follow the client discipline gc/op/bump; " +
+		"every 5th case drives the REAL ipamClient (cauto/cassign/crel/crelh/ctick) over the in-memory CAS store verif/harness/ipamkv: each block write is replayed on the model as xload;xgc;x<op>;xbump;xstate; " +
 		"distinct = distinct op sequence; non-trivial = the case contains a refused stale/wrong-handle release, a no-op double release, or a re-allocation of a previously released address"
 	run := func(ops []string, tag string) {
 		h.Case(tag)
@@ -748,9 +750,20 @@ func main() {
 		nontriv := false
 		realloc := false
 		for _, op := range ops {
+			k := strings.Fields(op)[0]
+			if strings.HasPrefix(k, "x") {
+				continue // derived lines of a replay file: regenerated by the client op
+			}
+			if strings.HasPrefix(k, "c") {
+				for _, l := range execClient(h, s, op) {
+					h.Op(l.op, l.out)
+				}
+				h.Count("op:" + k)
+				nontriv = true
+				continue
+			}
 			out := exec(h, s, op)
 			h.Op(op, out)
-			k := strings.Fields(op)[0]
 			h.Count("op:" + k)
 			r := strings.Fields(out)[0]
 			if strings.HasPrefix(r, "err") {
@@ -774,7 +787,11 @@ func main() {
 			h.Count("case:reallocation-after-release")
 			nontriv = true
 		}
-		h.Count(fmt.Sprintf("blocksize:%02d", s.n))
+		if s.c == nil {
+			h.Count(fmt.Sprintf("blocksize:%02d", s.n))
+		} else {
+			h.Count("case:client-level")
+		}
 		if nontriv {
 			h.Nontrivial(strings.Join(ops, ";"))
 		}
@@ -785,6 +802,10 @@ func main() {
 		return
 	}
 	for i := 0; i < h.N; i++ {
-		run(genCase(h), "gen")
+		if i%5 == 4 {
+			run(genClientCase(h), "client")
+		} else {
+			run(genCase(h), "gen")
+		}
 	}
 }
